@@ -315,6 +315,21 @@ func (this *partition) removeNode(nodeId uint64) {
 	}
 }
 
+// Replaces the replica list with the one of a newer descriptor (a catalogue snapshot), starting or
+// stopping the local replica the way addNode / removeNode do for the log entries the snapshot replaces.
+func (this *partition) setNodeIds(nodeIds []uint64) {
+	wasOnNode := this.isOnNode(this.raftTransport.NodeId())
+	this.meta.NodeIds = append([]uint64(nil), nodeIds...)
+	isOnNode := this.isOnNode(this.raftTransport.NodeId())
+
+	if isOnNode && !wasOnNode {
+		this.loadRaft(nil)
+	}
+	if wasOnNode && !isOnNode {
+		this.unloadRaft()
+	}
+}
+
 func (this *partition) proposeAndWaitForCommit(ctx context.Context, proposal *pb.PartitionChange) (interface{}, error) {
 	ctx, cancelCtx := context.WithTimeout(ctx, proposalTimeout)
 	defer cancelCtx()
